@@ -423,6 +423,10 @@ class CircularConvolveSolver(LinearSubproblemSolver):
                     "CircularConvolveSolver requires f.A to be a scico.linop.CircularConvolve "
                     f"or scico.linop.Identity; got {type(admm.f.A)}."
                 )
+            if not isinstance(admm.f.W, Identity):
+                raise ValueError(
+                    "CircularConvolveSolver does not support a weighted loss: f.W must be an Identity."
+                )
             auto_ndims = admm.f.A.ndims if isinstance(admm.f.A, CircularConvolve) else None
 
         if self.ndims is None:
@@ -590,6 +594,11 @@ class FBlockCircularConvolveSolver(LinearSubproblemSolver):
                 raise TypeError(
                     "FBlockCircularConvolveSolver requires f.A to be a composition of Sum "
                     f"and CircularConvolve linear operators; got {type(admm.f.A)}."
+                )
+            if not isinstance(admm.f.W, Identity):
+                raise ValueError(
+                    "FBlockCircularConvolveSolver does not support a weighted loss: f.W must be "
+                    "an Identity."
                 )
         super().internal_init(admm)
 
